@@ -486,7 +486,7 @@ pub fn run(r: &Run) {
     }
     r.prop("random-sequences", r.tier.pick(200_000, 4_000_000), || arb_case(r.tier.pick(40, 80)), check);
     r.assume(DRIVER_RULE);
-    r.prop("driver-sequences", r.tier.pick(6_000, 200_000), || arb_driver_case(r.tier.pick(12, 24)), check_driver);
+    r.slow(|| r.prop("driver-sequences", r.tier.pick(6_000, 200_000), || arb_driver_case(r.tier.pick(12, 24)), check_driver));
 }
 
 pub fn replay(sub: &str, case: &Value) -> Result<CheckResult, String> {
